@@ -115,6 +115,9 @@ impl<'a> Parser<'a> {
         while self.current().is_some() {
             if let Some(block) = Some(self.parse_block()?).filter(|b| !b.is_empty()) {
                 blocks.push(block);
+            } else if self.current_matches(TokenType::Else) {
+                // an `else` with no `if` ends every block without being consumed
+                return Err(self.new_parse_error(ParseErrorCode::UnexpectedToken));
             }
         }
         Ok(Program { code: blocks })
